@@ -6,6 +6,8 @@ import (
 	"os"
 	"path/filepath"
 	"strings"
+
+	"mvdan.cc/garble/internal/linker"
 )
 
 var _ = func() bool {
@@ -88,6 +90,36 @@ var _ = func() bool {
 			return verifHex(src)
 		}
 		return "!nofile"
+	}
+	return true
+}()
+
+var _ = func() bool {
+	// linkreuse <stamp hex | none> <binary size | -1> <goVersion hex> <patchesVer hex> -> 1|0 (real checkVersion && fileExists)
+	verifOps["linkreuse"] = func(a []string) string {
+		var stamp []byte
+		if a[0] != "none" {
+			stamp = verifUnhex(a[0])
+			if stamp == nil {
+				stamp = []byte{}
+			}
+		}
+		ok, err := linker.VerifLinkerReusable(stamp, verifInt(a[1]), string(verifUnhex(a[2])), string(verifUnhex(a[3])))
+		if err != nil {
+			return "err " + verifHex([]byte(err.Error()))
+		}
+		if ok {
+			return "1"
+		}
+		return "0"
+	}
+	// linkstamp <binary size> <goVersion hex> <patchesVer hex> -> content written by the real writeVersion
+	verifOps["linkstamp"] = func(a []string) string {
+		b, err := linker.VerifWriteVersion(verifInt(a[0]), string(verifUnhex(a[1])), string(verifUnhex(a[2])))
+		if err != nil {
+			return "err " + verifHex([]byte(err.Error()))
+		}
+		return verifHex(b)
 	}
 	return true
 }()
